@@ -139,7 +139,7 @@ package message
 // order, its C type name and a space, its field name and a space, and its array length as one byte when it is an
 // array; extension fields contribute nothing -- and the result is the xor of the two bytes of the final CRC.
 // (X25 itself is the CRC-16/MCRF4XX of what it is fed: pkg/x25 contracts.)
-//@ func (*ReadWriter).Initialize$3 captures (msgName string, rw *ReadWriter) returns (r)
+//@ func (*ReadWriter).Initialize$3 params () captures (msgName string, rw *ReadWriter) returns (r)
 //@   ghostlog (*x25.X25).Write, (*x25.X25).Sum16
 //@   let F = rw.fields[i]
 //@   let LAST = logLen()-1
